@@ -90,11 +90,59 @@ check_bank_output = Fn(
     ],
     )
 
+FE = "src/expr/expression.rs"
+unwrap_bigint = Fn(FE, "unwrap_bigint", impl="Value", slot="expr", ret="res", key="Value::unwrap_bigint", props=["C03"],
+                   requires=[C("is_integer", "self is Integer", ["C03"])],
+                   ensures=[C("value", "*res == self->Integer_0", ["C03"])])
+
+NODE_OK_OUT = """res is Ok && res->Ok_0 is Some ==> ({
+            let c = res->Ok_0->0;
+            bank_ok(defs, c.bank_ref)
+            && (match c.node {
+                // ASSUMED state after a confirmed resolution: labels are integers, encodings are sized, and
+                // position + size was already computed by the resolve passes (advance_address) without overflow
+                asm::ResolverNode::Symbol(s) => defined(&defs.symbols, s.item_ref)
+                    && (s.kind is Label ==> defs.symbols.defs@[(s.item_ref->0).0 as int]->0.value is Integer),
+                asm::ResolverNode::Instruction(n) => defined(&defs.instructions, n.item_ref)
+                    && defs.instructions.defs@[(n.item_ref->0).0 as int]->0.encoding.size is Some
+                    && c.bank_data.cur_position + defs.instructions.defs@[(n.item_ref->0).0 as int]->0.encoding.size->0 <= usize::MAX,
+                asm::ResolverNode::DataElement(n, k) => k < n.item_refs@.len() && k < n.elems@.len() && defined(&defs.data_elems, Some(n.item_refs@[k as int]))
+                    && defs.data_elems.defs@[n.item_refs@[k as int].0 as int]->0.encoding.size is Some
+                    && c.bank_data.cur_position + defs.data_elems.defs@[n.item_refs@[k as int].0 as int]->0.encoding.size->0 <= usize::MAX,
+                asm::ResolverNode::Res(n) => defined(&defs.res_directives, n.item_ref)
+                    && c.bank_data.cur_position + defs.res_directives.defs@[(n.item_ref->0).0 as int]->0.reserve_size <= usize::MAX,
+                _ => true,
+            })
+        })"""
+iter_next_out = Fn("src/asm/resolver/iter.rs", "next", impl="<'ast, 'decls> ResolveIterator<'ast, 'decls>", slot="resolver", mode="stub", ret="res", key="ResolveIterator::next",
+                   ensures=LOUD + [C("node_refers_to_defined_items", NODE_OK_OUT)])
+
+build_output = Fn(
+    FO, "build_output", slot="output", ret="res", props=["C06", "C03", "C01", "C12"],
+    attrs=["#[verifier::exec_allows_no_decreases_clause] // termination of the walk is NOT proved (the AST cursor lives behind ResolveIterator::next, a stub)"],
+    requires=[C("banks_defined", "all_banks_defined(defs, 0)", ["C03"])],
+    ensures=[
+        C("err_is_loud", "res is Err ==> final(report).msgs() > old(report).msgs()", ["C03"]),
+        C("output_well_formed", "res is Ok ==> res->Ok_0.wf()", ["C06"]),
+    ],
+    loops={1: Loop(invariant=[
+        C("state", "output.wf() && overlap_checker.wf() && all_banks_defined(defs, 0)"),
+        C("monotone", "report.msgs() >= old(report).msgs()"),
+    ])},
+    inserts=[
+        Insert("            overlap_checker.check_and_insert(\n                report,\n\t\t\t\tast_instr.span,", "            proof { assume(pos + instr.encoding.size->0 <= usize::MAX); }\n", where="before", finding="D9h",
+               why="finding guard: output position + item size overflows usize in OverlapChecker (known finding D9h)"),
+        Insert("            overlap_checker.check_and_insert(\n                report,\n                span,", "            proof { assume(pos + elem.encoding.size->0 <= usize::MAX); }\n", where="before", finding="D9h", why="finding guard D9h"),
+        Insert("                overlap_checker.check_and_insert(\n                    report,\n                    ast_res.header_span,", "                proof { assume(pos + res.reserve_size <= usize::MAX); }\n", where="before", finding="D9h", why="finding guard D9h"),
+    ],
+)
+
 UNIT = Unit(
     "U-output", "u_output/skeleton.rs",
     items=COMMON + overlap_items + bitvec_items + [
         get_output_position.as_stub("resolver"), get_address.as_stub("resolver"),
         check_bank_overlap, fill_banks, check_bank_usage, check_bank_output,
+        iter_new.as_stub("resolver"), iter_next_out, unwrap_bigint, build_output,
     ],
     serves=["C06", "C03", "C19", "C12"],
     description="asm::output: bank window checks, fill, per-item range/writability checks",
